@@ -8,6 +8,12 @@ use serde_json::{Value, json};
 use std::path::{Path, PathBuf};
 
 fn apply(ctx: &libcnb::build::BuildContext<c01::TestBp>, layers: &Path, scratch: &Path, names: &[String], opi: usize, op: &Value, probes: &Value) -> Value {
+    if op["op"] == "plant" {
+        // a directory entry somebody else left in the layers directory: a symbolic link (dangling unless the target exists)
+        let _ = std::fs::remove_file(layers.join(string_of(&op["path"])));
+        std::os::unix::fs::symlink(string_of(&op["target"]), layers.join(string_of(&op["path"]))).unwrap();
+        return json!({});
+    }
     if op["op"] == "handle" { c02::step(ctx, layers, scratch, names, opi, op, probes) } else { c01::step(ctx, layers, scratch, names, opi, op) }
 }
 
